@@ -138,6 +138,8 @@ struct Item { sc: usize, prefix: Vec<u8>, arity: Vec<u8>, used: usize }
 struct Local {
     execs: u64, transitions: u64, panics: u64, max_points: usize, max_devs: usize, witnesses: u64,
     outcomes: HashSet<u64>, states: HashSet<u64>,
+    /// executions per scenario index (measured; reported per completed bound in the evidence)
+    per_sc: std::collections::HashMap<usize, u64>,
 }
 
 thread_local! {
@@ -274,11 +276,12 @@ impl Explorer {
         init.reverse();
         let stack: Mutex<Vec<Item>> = Mutex::new(init);
         let active = AtomicUsize::new(0);
+        let per_sc: Mutex<Vec<u64>> = Mutex::new(vec![0; scs.len()]);
         std::thread::scope(|scope| {
             for w in 0..self.threads {
-                let stack = &stack; let active = &active;
+                let stack = &stack; let active = &active; let per_sc = &per_sc;
                 scope.spawn(move || {
-                    let mut local = Local { execs: 0, transitions: 0, panics: 0, max_points: 0, max_devs: 0, witnesses: 0, outcomes: HashSet::new(), states: HashSet::new() };
+                    let mut local = Local { execs: 0, transitions: 0, panics: 0, max_points: 0, max_devs: 0, witnesses: 0, outcomes: HashSet::new(), states: HashSet::new(), per_sc: Default::default() };
                     let mut n = 0u64;
                     loop {
                         if self.stats.stop.load(Ordering::Relaxed) { break; }
@@ -302,13 +305,15 @@ impl Explorer {
                             self.stats.stop.store(true, Ordering::Relaxed);
                         }
                     }
+                    { let mut g = per_sc.lock().unwrap(); for (k, v) in local.per_sc.iter() { g[*k] += *v; } }
                     self.merge(local);
                 });
             }
         });
         if !self.stats.stop.load(Ordering::Relaxed) {
             let mut cb = self.stats.completed_bounds.lock().unwrap();
-            for sc in scs.iter() { cb.push((sc.name.clone(), sc.d, 0)); }
+            let g = per_sc.lock().unwrap();
+            for (i, sc) in scs.iter().enumerate() { cb.push((sc.name.clone(), sc.d, g[i])); }
         }
     }
 
@@ -334,6 +339,7 @@ impl Explorer {
         let start = item.prefix.len();
         let used = item.used;
         let ch = self.run_one(sc, item.prefix, item.arity, w, local);
+        *local.per_sc.entry(sci).or_insert(0) += 1;
         if ch.diverged.is_some() { return; }
         // children: deviate at every later choice point
         let mut children: Vec<Item> = Vec::new();
